@@ -57,6 +57,19 @@ def parse_cfg(line: str) -> dict:
 
 
 def parse_msg(d: str) -> dict:
+    if d.startswith("X"):
+        import gen
+        raw = bytes.fromhex(d[1:])
+        h = gen.rfc_parse_header(raw)
+        keys = {}
+        avps = gen.rfc_parse_avps(raw[20:])
+        for c, v, f, data in avps:
+            if v == 0 and c in (263, 264, 296, 283):
+                keys[{263: "sid", 264: "oh", 296: "or", 283: "dr"}[c]] = data.decode("utf8", "replace")
+            if v == 0 and c == 268:
+                keys["rc"] = str(int.from_bytes(data, "big"))
+        return {"cmd": h[3], "flags": h[2], "app": h[4], "hbh": h[5], "e2e": h[6], "keys": keys,
+                "R": bool(h[2] & 0x80), "T": bool(h[2] & 0x10), "avps": [(c, v) for c, v, f, d in avps]}
     p = d.split(":")
     cmd = nodegen_cmd(p[0])
     m = {"cmd": cmd, "flags": int(p[1]), "app": int(p[2]), "hbh": int(p[3]), "e2e": int(p[4]), "keys": {}}
